@@ -42,3 +42,37 @@ def _domain_contains(n):
 
 
 DOMAIN = {F + 'ApplyIterSpec.__contains__': _domain_contains}
+
+
+# the combinations an iteration spec stands for, enumerated: exactly the indices that __contains__ accepts (the cached
+# set `i_set` is set(iter(self)); decoding intersects these sets, membership tests use __contains__)
+WELL = ('self.n_every > 0 and self.n_total >= 0 and self.n_total % self.n_every == 0 and '
+        'forall(j, 0, len(self.offsets), 0 <= self.offsets[j][0] and 0 <= self.offsets[j][1] and self.offsets[j][0] + self.offsets[j][1] <= self.n_every)')
+DRAFT_CONTRACTS = {}     # not registered: the period arithmetic (symbolic modulus) stays `unknown` in z3 and cvc5
+DRAFT_CONTRACTS[F + 'ApplyIterSpec.__iter__'] = dict(
+    properties=['C01', 'C04', 'C15', 'C05'],
+    types={'self': 'Ref[ApplyIterSpec]'},
+    yields='Int',
+    requires={'well-formed-spec': WELL},
+    # background arithmetic (proved in lemmas/Background.lean: mod_in_period): inside the q-th period the remainder
+    # is the distance to the start of the period
+    axioms={'L-mod-in-period': "forall('v:Int', 'q:Int', implies(self.n_every > 0 and q * self.n_every <= v and v < (q + 1) * self.n_every, v % self.n_every == v - q * self.n_every))"},
+    defs={'hit': (('x',), HIT),
+          'inblock': (('x', 'j'), 'self.offsets[j][0] <= x % self.n_every and x % self.n_every < self.offsets[j][0] + self.offsets[j][1]')},
+    loops={
+        'for i_start in range(0, self.n_total, self.n_every)': dict(index='b', invariant={
+            'only-members': 'forall(a, 0, len(Y), 0 <= Y[a] and Y[a] < b * self.n_every and hit(Y[a]))',
+            'all-members-below': "forall('v:Int', implies(0 <= v and v < b * self.n_every and hit(v), exists(a, 0, len(Y), Y[a] == v)))",
+        }),
+        'for offset, n_apply in self.offsets': dict(index='k', invariant={
+            'only-members': 'forall(a, 0, len(Y), 0 <= Y[a] and Y[a] < (b + 1) * self.n_every and hit(Y[a]))',
+            'all-members-below': "forall('v:Int', implies(0 <= v and v < b * self.n_every and hit(v), exists(a, 0, len(Y), Y[a] == v)))",
+            'this-period-so-far': "forall('v:Int', implies(b * self.n_every <= v and v < (b + 1) * self.n_every and exists(j, 0, k, inblock(v, j)), exists(a, 0, len(Y), Y[a] == v)))",
+        }),
+    },
+    ensures={
+        'yields-only-members': ('property', 'forall(a, 0, len(Y), 0 <= Y[a] and Y[a] < self.n_total and hit(Y[a]))'),
+        'yields-every-member': ('property', "forall('v:Int', implies(0 <= v and v < self.n_total and hit(v), exists(a, 0, len(Y), Y[a] == v)))"),
+    },
+    modifies=[],
+)
